@@ -1224,9 +1224,11 @@ func (r *MetricsResult) computeAggCount(aggregation structs.Aggregation, seriesE
 	} else {
 		timestampToCount := make(map[uint32]float64)
 
+		// an id can stand for several series (the ids carry only the labels of the query's filters):
+		// every entry is the downsampled value of one series
 		for _, timeSeries := range seriesEntriesMap {
-			for timestamp := range timeSeries {
-				timestampToCount[timestamp]++
+			for timestamp, entries := range timeSeries {
+				timestampToCount[timestamp] += float64(len(entries))
 			}
 		}
 		r.Results[r.MetricName+"{"] = timestampToCount
